@@ -158,7 +158,14 @@ func c15Retry(c *Ctx, dr *ssa.Function, ra, rb, rc string) {
 	p := c.P
 	c.Analysed(p.FName(dr))
 	fname := p.FName(dr)
-	attempts := p.callsIn(dr, "(*token/worker.WorkerToken).doOnce")
+	var attempts []ssa.CallInstruction
+	if once := workerAttemptFn(p); once != nil {
+		for _, ci := range callsOf(dr) {
+			if ci.Common().StaticCallee() == once {
+				attempts = append(attempts, ci)
+			}
+		}
+	}
 	if len(attempts) != 1 {
 		c.Undecided(ra, fname+" attempt call", p.Pos(dr.Pos()), fmt.Sprintf("%d calls to doOnce, the rule understands exactly one", len(attempts)))
 		return
@@ -507,7 +514,7 @@ func retShape(p *Prog, ev ssa.Value, errV ssa.Value) string {
 
 func c15Once(c *Ctx, rc, re string) {
 	p := c.P
-	do := p.Func("token/worker.(*WorkerToken).doOnce")
+	do := workerAttemptFn(p)
 	if do == nil {
 		c.Undecided(rc, "(*WorkerToken).doOnce", "-", "function not found")
 		return
@@ -807,7 +814,14 @@ func c15Handler(c *Ctx, rd, re, rf string) {
 	}
 
 	// handle(): WithKeyID installed when rr.KeyID != nil, before any token call
+	// the function of the worker command that pins the key id (handle today; a dispatch step split
+	// off it carries the pinning and the token calls with it)
 	h := p.Func("cmdline/workercmd.(*handler).handle")
+	for _, fn := range p.pkgFuncs("cmdline/workercmd") {
+		if len(p.callsIn(fn, "token.WithKeyID")) > 0 && (h == nil || len(p.callsIn(h, "token.WithKeyID")) == 0) {
+			h = fn
+		}
+	}
 	if h == nil {
 		c.Undecided(rf, "(*handler).handle", "-", "function not found")
 		return
@@ -1233,4 +1247,23 @@ func c15Transparent(c *Ctx) {
 	if n < 5 {
 		c.Undecided("R15g", "token wrapper methods", "-", fmt.Sprintf("only %d wrapper methods forwarding to an inner token found (6 confirmed by reading)", n))
 	}
+}
+
+// workerAttemptFn: the function of token/worker that makes one attempt against the worker process -
+// doOnce while that name exists, otherwise the one function of the package that sends the HTTP
+// request ((*http.Client).Do).
+func workerAttemptFn(p *Prog) *ssa.Function {
+	if fn := p.Func("token/worker.(*WorkerToken).doOnce"); fn != nil {
+		return fn
+	}
+	var out *ssa.Function
+	for _, fn := range p.pkgFuncs("token/worker") {
+		if len(p.callsIn(fn, "(*net/http.Client).Do")) > 0 {
+			if out != nil {
+				return nil
+			}
+			out = fn
+		}
+	}
+	return out
 }
